@@ -50,7 +50,8 @@ impl<'r> DocGen<'r> {
 		}
 		let n = self.next;
 		self.next += 1;
-		(NSS.choose(self.rng).unwrap().map(|s| s.to_string()), format!("T{n}"))
+		let odd = odd_name_suffix(self.rng);
+		(NSS.choose(self.rng).unwrap().map(|s| s.to_string()), format!("T{n}{odd}"))
 	}
 	fn prim(&mut self) -> ATy {
 		let c = self.rng.gen_range(0..16);
@@ -323,6 +324,30 @@ fn shuffle_obj(rng: &mut StdRng, m: Vec<(String, Value)>) -> Value {
 	Value::Array(m.into_iter().map(|(k, v)| json!([k, v])).collect())
 }
 
+/// One JSON string, in one of its spellings: as `serde_json` prints it, or with some characters
+/// written as escape sequences (`\u0069nt` is the string `int`; `\/` is `/`) - a parser hands
+/// an escaped string to its consumer through another entry point (a transient, not a borrowed,
+/// string) than a plain one.
+fn jstr(s: &str, rng: &mut StdRng, out: &mut String) {
+	if !rng.gen_bool(0.12) {
+		out.push_str(&serde_json::to_string(s).unwrap());
+		return;
+	}
+	let all = rng.gen_bool(0.3);
+	let n = s.chars().count().max(1);
+	let pick = rng.gen_range(0..n);
+	out.push('"');
+	for (i, c) in s.chars().enumerate() {
+		if (all || i == pick) && (c as u32) < 0x10000 {
+			out.push_str(&format!("\\u{:04x}", c as u32));
+		} else {
+			let one = serde_json::to_string(&c.to_string()).unwrap();
+			out.push_str(&one[1..one.len() - 1]);
+		}
+	}
+	out.push('"');
+}
+
 /// JSON text of an "ordered object" encoded as [[k,v],...] by `shuffle_obj`
 fn render(v: &Value, ordered: bool, rng: &mut StdRng, out: &mut String) {
 	let ws = |rng: &mut StdRng, out: &mut String| {
@@ -339,7 +364,7 @@ fn render(v: &Value, ordered: bool, rng: &mut StdRng, out: &mut String) {
 				}
 				ws(rng, out);
 				let k = kv[0].as_str().unwrap();
-				out.push_str(&serde_json::to_string(k).unwrap());
+				jstr(k, rng, out);
 				ws(rng, out);
 				out.push(':');
 				ws(rng, out);
@@ -366,6 +391,7 @@ fn render_any(v: &Value, rng: &mut StdRng, out: &mut String) {
 			}
 			out.push(']');
 		}
+		Value::String(st) => jstr(st, rng, out),
 		other => out.push_str(&serde_json::to_string(other).unwrap()),
 	}
 }
@@ -946,6 +972,41 @@ fn _unused(raw: &RawSchema) {
 // ---------------------------------------------------------------------------------------------
 // Builder graphs: canonical form, regenerated JSON, freeze, re-parse
 
+/// Builder graphs over a table of awkward fullnames (dots in every position, empty parts,
+/// non-ASCII and multi-byte characters next to the dots, quotes) × kind of named type ×
+/// position in the graph (root; branch of a union, where `freeze` derives the short name;
+/// nested in a record of the same / another namespace, where the rendering abbreviates it;
+/// referred to twice, where rendering and canonical form write a reference).
+pub fn generate_graph_names(emit: &mut dyn FnMut(String)) {
+	let names = [
+		"X", "a.X", "a.b.X", ".X", "..", ".", "", ".ns.", ".ns.X", ".a.b", ".ns.é", ".é", "é.", "ns.", "ns..", "a..b", "..a", "a.é",
+		"é.a", "名.名", ".名.名", "a.b.", "e\u{301}.e\u{301}", ".\u{200b}.x", "x y", "quo\"te", "back\\slash", "a.X.", "....", ".a.",
+	];
+	for name in names {
+		for kind in 0..3 {
+			let named = |nm: &str| match kind {
+				0 => Reg::Record(nm.to_string(), vec![]),
+				1 => Reg::Enum(nm.to_string(), vec!["A".into()]),
+				_ => Reg::Fixed(nm.to_string(), 2),
+			};
+			let n = |reg: Reg| RawNode { reg, logical: None };
+			let graphs: Vec<RawSchema> = vec![
+				vec![n(named(name))],
+				vec![n(Reg::Union(vec![1, 2])), n(Reg::Null), n(named(name))],
+				vec![n(Reg::Record("a.Outer".into(), vec![("f".into(), 1)])), n(named(name))],
+				vec![n(Reg::Record("Outer".into(), vec![("f".into(), 1), ("g".into(), 1)])), n(named(name))],
+				vec![n(Reg::Record(".ns.Outer".into(), vec![("f".into(), 1), ("g".into(), 2)])), n(named(name)), n(Reg::Array(1))],
+				vec![n(Reg::Array(1)), n(Reg::Union(vec![2, 3])), n(named(name)), n(Reg::Enum("a.Other".into(), vec!["A".into()]))],
+			];
+			for g in graphs {
+				let mut w = W::default();
+				w.t("graph").n(0).schema(&g);
+				emit(w.s);
+			}
+		}
+	}
+}
+
 pub fn generate_graph(stream: &str, seed: u64, n: usize, emit: &mut dyn FnMut(String)) {
 	let mut rng = rng_from(seed, stream);
 	for i in 0..n {
@@ -1083,7 +1144,10 @@ pub fn run_graph(line: &str) -> Result<String, String> {
 	let _ = r.tok()?;
 	let _unique = r.n()?;
 	let raw = r.schema()?;
-	let g = build::to_schema_mut(&raw);
+	// the same graph, built from nodes - or obtained by editing (through `nodes_mut`) a schema
+	// parsed from a document: what such a schema reports afterwards must describe the edited
+	// graph, not the document it once came from
+	let g = build::to_schema_mut_sel(&raw, line.len());
 	let mut w = W::default();
 	let pcf = serde_avro_fast::schema::verif::canonical_form(&g);
 	match &pcf {
